@@ -1228,6 +1228,8 @@ htp_status_t htp_tx_state_response_complete_ex(htp_tx_t *tx, int hybrid_mode) {
         if (rc != HTP_OK) return rc;
     }
 
+    int yield = 0;
+
     if (!hybrid_mode) {
         // Check if the inbound parser is waiting on us. If it is, that means that
         // there might be request data that the inbound parser hasn't consumed yet.
@@ -1243,15 +1245,12 @@ htp_status_t htp_tx_state_response_complete_ex(htp_tx_t *tx, int hybrid_mode) {
         // that many inbound transactions have been processed, and that the parser is
         // waiting on a response that we have not seen yet.
         if ((tx->connp->in_status == HTP_STREAM_DATA_OTHER) && (tx->connp->in_tx == tx->connp->out_tx)) {
-            return HTP_DATA_OTHER;
-        }
-
-        // Do we have a signal to yield to inbound processing at
-        // the end of the next transaction?
-        if (tx->connp->out_data_other_at_tx_end) {
-            // We do. Let's yield then.
+            yield = 1;
+        } else if (tx->connp->out_data_other_at_tx_end) {
+            // Do we have a signal to yield to inbound processing at
+            // the end of the next transaction? We do. Let's yield then.
             tx->connp->out_data_other_at_tx_end = 0;
-            return HTP_DATA_OTHER;
+            yield = 1;
         }
     }
 
@@ -1263,12 +1262,14 @@ htp_status_t htp_tx_state_response_complete_ex(htp_tx_t *tx, int hybrid_mode) {
     htp_status_t rc = htp_tx_finalize(tx);
     if (rc != HTP_OK) return rc;
 
-    // Disconnect transaction from the parser.
+    // Disconnect transaction from the parser. This has to happen before we yield as well:
+    // the response side is done with this transaction, and the inbound parser may finalize
+    // (and destroy) it before we are called again.
     connp->out_tx = NULL;
 
     connp->out_state = htp_connp_RES_IDLE;
 
-    return HTP_OK;
+    return yield ? HTP_DATA_OTHER : HTP_OK;
 }
 
 /**
